@@ -374,6 +374,7 @@ func TestVerifC14_FieldRandom(t *testing.T) {
 		var touched []uint64
 		var log []string
 		shrunk, cleared := false, false
+		midReads := 0
 		for i := 0; i < nops; i++ {
 			kind := rapid.SampledFrom([]string{"set", "set", "import", "import", "clear"}).Draw(t, fmt.Sprintf("op%d", i))
 			switch kind {
@@ -417,6 +418,17 @@ func TestVerifC14_FieldRandom(t *testing.T) {
 				delete(m.Vals, col)
 				cleared = true
 				log = append(log, fmt.Sprintf("ImportClear(%d)", col))
+			}
+			// reads between the writes (the next write then meets a warm row cache)
+			if len(used) > 0 && rapid.Bool().Draw(t, fmt.Sprintf("read%d", i)) {
+				w := what + " after " + fmt.Sprint(log)
+				for _, p := range []int64{used[len(used)-1], 0} {
+					for _, op := range vq1Ops {
+						vc14CheckRange(t, f.Field, m, w, op, p)
+					}
+				}
+				vc14CheckAggs(t, f.Field, m, w, nil)
+				midReads++
 			}
 		}
 		what = what + " after " + fmt.Sprint(log)
@@ -464,7 +476,7 @@ func TestVerifC14_FieldRandom(t *testing.T) {
 		tie, negOnly := vc14CheckAggs(t, f.Field, m, what, nulls)
 		c.Class("depth:%02d-%02d", bsig.BitDepth/8*8, bsig.BitDepth/8*8+7).ClassIf(sp.Reopen, "reopenedBeforeWrites(base=min)")
 		c.ClassIf(beyond, "predicateBeyondBitDepthInsideBounds").ClassIf(tie, "extremeTiedAcrossShards").ClassIf(negOnly, "negativeOnlySelection")
-		c.ClassIf(shrunk, "overwriteShrinksValue").ClassIf(cleared, "cleared")
+		c.ClassIf(shrunk, "overwriteShrinksValue").ClassIf(cleared, "cleared").ClassIf(midReads > 0, "readsBetweenWrites")
 		c.NT(beyond || tie || negOnly || shrunk)
 		c.Sample(map[string]interface{}{"bounds": []int64{sp.Min, sp.Max}, "ops": log, "depth": bsig.BitDepth})
 	})
